@@ -41,10 +41,10 @@ func runC15(opt *Options) int {
 			{Name: "K8.resolvepackage", Pkg: "config", Harness: "VerifHarness_C15_ResolvePackage", Unwind: 64, E2E: "c15"},
 			kernelGenerateConverters("c15"),
 		},
-		Funcs:  []string{"generator.(*fileManager).Get", "generator.getOutputDir", "config.(*ConverterConfig).PackageID", "config.parseConverterLine (output:package, output:file arms)", "parse.File", "parse.String", "config.defaultOutputFile", "config.getPackages", "config.registerConverterLines", "config.registerMethodLines", "config.resolveOutputPackage", "config.resolvePackage", "pkgload.New", "pkgload.(*PackageLoader).load/GetUncheckedPkg", "goverter.GenerateConverters", "goverter.generateConvertersRaw", "goverter.writeFiles"},
+		Funcs:     []string{"generator.(*fileManager).Get", "generator.getOutputDir", "config.(*ConverterConfig).PackageID", "config.parseConverterLine (output:package, output:file arms)", "parse.File", "parse.String", "config.defaultOutputFile", "config.getPackages", "config.registerConverterLines", "config.registerMethodLines", "config.resolveOutputPackage", "config.resolvePackage", "pkgload.New", "pkgload.(*PackageLoader).load/GetUncheckedPkg", "goverter.GenerateConverters", "goverter.generateConvertersRaw", "goverter.writeFiles"},
 		E2EAlways: "c15",
-		Bounds: "two converters with arbitrary (atom) file names, output files, package paths and names; output:package / output:file values of <= 6/7 (thorough 9/10) arbitrary non-blank ASCII bytes; declaring file names of <= 8 (thorough 11) arbitrary bytes; <= 2 generated files",
-		Assume: k8Assume,
+		Bounds:    "two converters with arbitrary (atom) file names, output files, package paths and names; output:package / output:file values of <= 6/7 (thorough 9/10) arbitrary non-blank ASCII bytes; declaring file names of <= 8 (thorough 11) arbitrary bytes; <= 2 generated files",
+		Assume:    k8Assume,
 	}
 	return lr.finish(lr.run(), nil)
 }
@@ -60,10 +60,10 @@ func runC16(opt *Options) int {
 			kernelGenerateConverters("c16"),
 			{Name: "K8.run", Pkg: "cli", Harness: "VerifHarness_C17_Run", Unwind: 16, E2E: "c16", Stub: []string{"github.com/jmattheis/goverter/cli.Parse", "github.com/jmattheis/goverter.GenerateConverters"}},
 		},
-		Funcs:  []string{"cli.Run (configuration hand-over)", "generator.(*fileManager).Get (header emission)", "comments.ParseDocs", "pkgload.New", "pkgload.(*PackageLoader).load", "goverter.generateConvertersRaw"},
+		Funcs:     []string{"cli.Run (configuration hand-over)", "generator.(*fileManager).Get (header emission)", "comments.ParseDocs", "pkgload.New", "pkgload.(*PackageLoader).load", "goverter.generateConvertersRaw"},
 		E2EAlways: "c16",
-		Bounds: "any build-tags / constraint string (atoms; the header constraint <= 3 arbitrary bytes); two converters sharing or not sharing a file",
-		Assume: k8Assume,
+		Bounds:    "any build-tags / constraint string (atoms; the header constraint <= 3 arbitrary bytes); two converters sharing or not sharing a file",
+		Assume:    k8Assume,
 	}
 	return lr.finish(lr.run(), nil)
 }
@@ -77,10 +77,10 @@ func runC17(opt *Options) int {
 			{Name: "K8.generate", Pkg: "generator", Harness: "VerifHarness_C17_Generate", Unwind: 16, E2E: "c17", Stub: []string{"github.com/jmattheis/goverter/generator.generateConverter"}},
 			{Name: "K8.run", Pkg: "cli", Harness: "VerifHarness_C17_Run", Unwind: 16, E2E: "c17", Stub: []string{"github.com/jmattheis/goverter/cli.Parse", "github.com/jmattheis/goverter.GenerateConverters"}},
 		},
-		Funcs:  []string{"goverter.GenerateConverters", "goverter.generateConvertersRaw", "goverter.writeFiles", "generator.Generate", "generator.(*fileManager).Get", "generator.(*fileManager).renderFiles", "cli.Run"},
+		Funcs:     []string{"goverter.GenerateConverters", "goverter.generateConvertersRaw", "goverter.writeFiles", "generator.Generate", "generator.(*fileManager).Get", "generator.(*fileManager).renderFiles", "cli.Run"},
 		E2EAlways: "c17",
-		Bounds: "every failing stage (doc scan, config, generation), <= 3 converters with the failure at any position, <= 2 output files, every parse outcome of the command line (error, help, gen, version)",
-		Assume: k8Assume,
+		Bounds:    "every failing stage (doc scan, config, generation), <= 3 converters with the failure at any position, <= 2 output files, every parse outcome of the command line (error, help, gen, version)",
+		Assume:    k8Assume,
 	}
 	return lr.finish(lr.run(), nil)
 }
